@@ -14,6 +14,7 @@ import BR.Model.Screw
 import BR.Model.Helpers
 import BR.Model.RRT
 import BR.Model.HeapOps
+import BR.Model.Arm
 
 namespace BR.Driver
 
@@ -230,6 +231,7 @@ structure DState where
   comms : BR.Comms.St := BR.Comms.init []
   tms : List (BR.TmModel.Tm Float) := []
   rrt : List (BR.RRT.Node Float) := [BR.RRT.root]
+  arm : Option (BR.ArmModel.Arm Float) := none
 
 namespace TmIO
 open BR.TmModel BR.MR MRIO
@@ -311,6 +313,49 @@ def parseOp : List String → Option Op
 
 end CommsIO
 
+namespace ArmIO
+open BR.ArmModel BR.MR MRIO
+
+def takeN (n : Nat) (l : List Float) : Option (List Float × List Float) :=
+  if l.length < n then none else some (l.take n, l.drop n)
+
+def screws (n : Nat) (l : List Float) : Option (List (V6 Float) × List Float) :=
+  match n with
+  | 0 => some ([], l)
+  | k + 1 => do
+    let (s, r) ← v6 l
+    let (ss, r') ← screws k r
+    some (s :: ss, r')
+
+def fmt (a : Arm Float) : String :=
+  " ".intercalate ((oT4 a.eePos 1 ++ oT4 a.base 1 ++ a.theta).map fmtFloat)
+
+def parseNew (l : List Float) : Option (Arm Float) :=
+  match l with
+  | nf :: r => do
+    let n := nf.toUInt64.toNat
+    let (b, r) ← t4 r
+    let (m, r) ← t4 r
+    let (ss, r) ← screws n r
+    let (mins, r) ← takeN n r
+    let (maxs, _) ← takeN n r
+    some (BR.ArmModel.new b ss m mins maxs (List.replicate n 0))
+  | [] => none
+
+def parseOp (name : String) (l : List Float) (n : Nat) : Option (Op Float) :=
+  match name with
+  | "FK" => do let (t, _) ← takeN n l; some (.FK t)
+  | "IK" => do let (t, _) ← takeN n l; some (.IK t)
+  | "IKfree" => do let (t, _) ← takeN n l; some (.IKfree t)
+  | "randomPos" => do let (t, _) ← takeN n l; some (.randomPos t)
+  | "move" => do let (b, _) ← t4 l; some (.move b)
+  | "moveS" => do let (b, r) ← t4 l; let (t, _) ← takeN n r; some (.moveStationary b t)
+  | "setHome" => do let (d, _) ← t4 l; some (.setHome d)
+  | "restore" => some .restore
+  | _ => none
+
+end ArmIO
+
 /-- stateful requests; `none` = not a stateful request -/
 def handleState (st : DState) (fn : String) (args : List String) : Option (DState × String) :=
   match fn with
@@ -329,6 +374,18 @@ def handleState (st : DState) (fn : String) (args : List String) : Option (DStat
         | some (nm, rf) => some (st, s!"{if nm then 0 else 1} {if rf then 0 else 1}")
         | none => some (st, "unknown-op")
       | _ => some (st, "bad-op")
+  | "arm.new" => match allSome (args.map parseFloat) with
+      | some fl => match ArmIO.parseNew fl with
+        | some a => some ({ st with arm := some a }, ArmIO.fmt a)
+        | none => some (st, "bad-op")
+      | none => some (st, "bad-op")
+  | "arm.op" => match args, st.arm with
+      | name :: rest, some a => match allSome (rest.map parseFloat) with
+        | some fl => match ArmIO.parseOp name fl a.S0.length with
+          | some op => let a' := BR.ArmModel.step a op; some ({ st with arm := some a' }, ArmIO.fmt a')
+          | none => some (st, "bad-op")
+        | none => some (st, "bad-op")
+      | _, _ => some (st, "bad-op")
   | "rrt.reset" => some ({ st with rrt := [BR.RRT.root] }, "ok")
   | "rrt.iter" =>
       -- rrt.iter <nearest> <dist0> <coll0> (<cand id> <dist> <collides>)*
